@@ -193,6 +193,36 @@ def ramp_up(sl):
     observe("no ramp-up => no wait", h2.ramp_up_wait_time == 0)
 
 
+def ramp_up_allocated(sl):
+    """the 'total' of the ramp-up rule is the number of clients of the ramped-up element itself, as handed out by the real Allocator
+    (other elements of the challenge may use more or fewer clients)"""
+    ca = concrete(fresh_int("clients_of_the_other_task", 1, 4))
+    cb = concrete(fresh_int("clients_of_the_ramped_task", 1, 4))
+    par = bool(fresh_bool("ramped_task_is_a_parallel_element"))
+    ramp = fresh_real("ramp_up", 0)
+    core.assume(ramp > 0)
+    other = track.Task("other", track.Operation("op", "bulk"), clients=ca)
+    if par:
+        subs = [track.Task("r%d" % i, track.Operation("op%d" % i, "bulk"), clients=1, ramp_up_time_period=ramp, warmup_time_period=ramp) for i in range(cb)]
+        ramped = track.Parallel(subs)
+    else:
+        ramped = track.Task("r", track.Operation("op", "bulk"), clients=cb, ramp_up_time_period=ramp, warmup_time_period=ramp)
+    order = [other, ramped] if bool(fresh_bool("other_task_first")) else [ramped, other]
+    alloc = driver.Allocator(order).allocations
+    tas = [x for row in alloc for x in row if isinstance(x, driver.TaskAllocation) and x.task.name.startswith("r")]
+    core.trace("allocations", len(tas))
+    observe("every client of the ramped-up element has an allocation", len(tas) == cb)
+    waits = []
+    for ta in tas:
+        w = driver.ScheduleHandle(ta, None, None, None, None).ramp_up_wait_time
+        waits.append(w)
+        observe("client %d waits ramp-up * i / total with total = clients of its own element" % ta.global_client_index,
+                # i / total is computed on concrete operands (an inexact double such as 1/3): compared with a 1e-9 relative tolerance
+                s_and(w * cb - ramp * ta.global_client_index <= ramp * 1e-9, ramp * ta.global_client_index - w * cb <= ramp * 1e-9))
+    observe("the waits of the element's clients are spread evenly over [0, ramp-up)",
+            sorted(ta.global_client_index for ta in tas) == list(range(cb)) and all(bool(w < ramp) for w in waits))
+
+
 # ---------------------------------------------------------------------------------------------------- generator
 class Params:
     infinite = True
@@ -463,6 +493,39 @@ def target_throughput(sl):
             observe("no target => None (unthrottled)", t.target_throughput is None)
 
 
+NUMBERS = ["0.5", ".5", "5", "10", "1.25", "00.5", ".05", "100.001", "5.", "", "1e3"]
+VALID_NUMBERS = {"0.5", ".5", "5", "10", "1.25", "00.5", ".05", "100.001"}
+SEPARATORS = [" ", "\t", "", "  "]
+UNITS = ["docs/s", "ops/s", "MB/s", "pages/s", "d/s", "/s", "docs", "docs/m"]
+VALID_UNITS = {"docs/s", "ops/s", "MB/s", "pages/s", "d/s"}
+
+
+def target_throughput_strings(sl):
+    """Task.target_throughput for the documented string form '<number> <unit>/s' (finite family of spellings, executed concretely)"""
+    num = NUMBERS[concrete(fresh_int("number_spelling", 0, len(NUMBERS) - 1))]
+    sep = SEPARATORS[concrete(fresh_int("separator", 0, len(SEPARATORS) - 1))]
+    unit = UNITS[concrete(fresh_int("unit_spelling", 0, len(UNITS) - 1))]
+    text = num + sep + unit
+    t = track.Task("t", track.Operation("op", "bulk"), params={"target-throughput": text})
+    try:
+        tt = t.target_throughput
+        how = "ret"
+    except exceptions.InvalidSyntax:
+        tt, how = None, "invalid"
+    core.note("text", repr(text))
+    core.note("parsed", repr(tt))
+    core.trace("how", how)
+    documented = num in VALID_NUMBERS and sep in (" ", "\t") and unit in VALID_UNITS
+    if documented:
+        observe("a target throughput in the documented form is accepted", how == "ret" and tt is not None)
+        if tt is not None:
+            observe("its value is the number as written (a leading-dot or multi-digit number is not cut)", tt.value == float(num))
+            observe("its unit is the unit as written", tt.unit == unit)
+    elif how == "ret" and num in VALID_NUMBERS and unit in VALID_UNITS:
+        # a more lenient separator is tolerated, but then the number and the unit must still be read completely
+        observe("a leniently accepted spelling still yields the number and unit as written", tt.value == float(num) and tt.unit == unit)
+
+
 READS = [driver.schedule_for, driver.requires_time_period_schedule, driver.ScheduleHandle.__call__, driver.ScheduleHandle.ramp_up_wait_time.fget,
          driver.IterationBased, driver.TimePeriodBased, scheduler.scheduler_for, scheduler.run_unthrottled, scheduler.UnitAwareScheduler.after_request,
          scheduler.DeterministicScheduler, scheduler.PoissonScheduler, scheduler.Unthrottled, track.Task.target_throughput.fget,
@@ -485,6 +548,13 @@ HARNESSES = [
             real_valued=True, doc="poisson schedule: monotone scheduled times, right rate (distribution shape not judged)"),
     Harness("ramp_up", ramp_up, "symbolic", lambda tier: [{}], reads=READS, bounds={"clients": "unbounded"}, assumptions=ASSUME, real_valued=True,
             doc="ramp-up wait == ramp*i/total"),
+    Harness("ramp_up_allocated", ramp_up_allocated, "symbolic", lambda tier: [{}], reads=READS + [driver.Allocator.allocations.fget],
+            bounds={"clients": "1..4 for the ramped-up element (task or parallel of single-client tasks) and for another task before or after it", "ramp-up": "symbolic real > 0"},
+            assumptions=ASSUME, real_valued=True, doc="ramp-up total is the element's own client count as allocated by the real Allocator"),
+    Harness("target_throughput_strings", target_throughput_strings, "bounded-exhaustive", lambda tier: [{}], reads=READS,
+            assumptions=["regex matching and float() run concretely on a finite family of spellings (no symbolic strings)"],
+            bounds={"numbers": NUMBERS, "separators": [repr(x) for x in SEPARATORS], "units": UNITS},
+            doc="string form of target-throughput: number and unit read as written"),
     Harness("generator_iterations", generator_iterations, "symbolic", lambda tier: [{"bound": 4 if tier == "quick" else 6}], reads=READS,
             bounds={"warmup + iterations": "<=4 quick / <=6 thorough"}, real_valued=True, doc="real schedule generator with IterationBased"),
     Harness("generator_param_source_ends", generator_param_source_ends, "symbolic", lambda tier: [{"limit": k} for k in (0, 1, 3)], reads=READS,
